@@ -104,9 +104,6 @@ func Command(name string, arg ...string) *Cmd {
 }
 
 func (c *Cmd) Start() error {
-	// starting a program takes time: other threads run between the decision to start a hook and
-	// whatever the caller does next
-	mc.Yield("vexec.Start")
 	w := GetWorld()
 	s := mc.Cur()
 	rec := &StartRec{Path: c.Path, Args: c.Args, Env: c.Env, Step: s.Steps, VTime: vtime.Elapsed(), Thread: mc.Me().Name}
@@ -138,6 +135,9 @@ func (c *Cmd) Start() error {
 		return err
 	}
 	c.Process = &Process{Pid: 1000 + len(w.Starts), cmd: c}
+	// the program is running now; other threads get to run before the caller continues with
+	// whatever it does after having started it
+	mc.Yield("vexec.Start")
 	return nil
 }
 
